@@ -122,3 +122,39 @@ func OutcomeOf(r Result) refmal.Outcome {
 	}
 	return refmal.Outcome{Thrown: &refmal.Thrown{Go: "builtin"}}
 }
+
+// CompareResults compares two results of the implementation itself (two runs, two routes):
+// same kind, exactly equal value, and for errors the same thrown value or the same Go error
+// type; withText also demands the same error text.
+func CompareResults(a, b Result, withText bool) (sig, msg string) {
+	if a.Panicked || b.Panicked {
+		return "panic:" + a.PanicSite + b.PanicSite, fmt.Sprintf("panicked: %v / %v", a.PanicVal, b.PanicVal)
+	}
+	if (a.Err == nil) != (b.Err == nil) {
+		return "kind-differs", fmt.Sprintf("one run returned error %v, the other error %v (values %s / %s)", a.Err, b.Err, val.Canon(val.From(a.Val)), val.Canon(val.From(b.Val)))
+	}
+	if a.Err == nil {
+		if x, y := val.From(a.Val), val.From(b.Val); !val.EqExact(x, y) {
+			return "value-differs", fmt.Sprintf("one run returned %s, the other %s", val.Canon(x), val.Canon(y))
+		}
+		return "", ""
+	}
+	ea, ha := ErrorValue(a.Err)
+	eb, hb := ErrorValue(b.Err)
+	if ha != hb {
+		return "error-object-differs", fmt.Sprintf("one run failed with %T %v, the other with %T %v", a.Err, a.Err, b.Err, b.Err)
+	}
+	if ha {
+		if x, y := val.From(ea), val.From(eb); !val.EqExact(x, y) {
+			return "thrown-value-differs", fmt.Sprintf("one run threw %s, the other %s", val.Canon(x), val.Canon(y))
+		}
+		return "", ""
+	}
+	if ta, tb := fmt.Sprintf("%T", a.Err), fmt.Sprintf("%T", b.Err); ta != tb {
+		return "error-type-differs", fmt.Sprintf("one run failed with %s %v, the other with %s %v", ta, a.Err, tb, b.Err)
+	}
+	if withText && a.Err.Error() != b.Err.Error() {
+		return "error-text-differs", fmt.Sprintf("one run failed with %q, the other with %q", a.Err.Error(), b.Err.Error())
+	}
+	return "", ""
+}
